@@ -631,10 +631,18 @@ class FileMonitoringKey(Contract):
             ok = len(calls) == 1 and not ucalls
             if ok:
                 pos, kw = calls[0]
-                ps = kw.get("path_stats")
-                ok = (kw.get("path") == pathlib.Path("/data/file.rtdc") and isinstance(ps, tuple) and st is not None
-                      and len(ps) == 2 and ps[0] is st.fields["st_mtime_ns"] and ps[1] is st.fields["st_size"]
-                      and pos == (self._blocksize,) and kw.get("count") == 3)
+                # bind the call to cached_wrapper(path, path_stats, *args, **kwargs) as Python does: the first two
+                # parameters positionally; giving them as keywords *and* further positional arguments is a TypeError
+                pos = tuple(pos)
+                if ("path" in kw or "path_stats" in kw) and pos:
+                    ok = False          # "got multiple values for argument 'path'"
+                else:
+                    pth = kw["path"] if "path" in kw else (pos[0] if pos else None)
+                    ps = kw["path_stats"] if "path_stats" in kw else (pos[1] if len(pos) > 1 else None)
+                    rest = pos if "path" in kw else pos[2:]
+                    ok = (pth == pathlib.Path("/data/file.rtdc") and isinstance(ps, tuple) and st is not None
+                          and len(ps) == 2 and ps[0] is st.fields["st_mtime_ns"] and ps[1] is st.fields["st_size"]
+                          and rest == (self._blocksize,) and kw.get("count") == 3)
             return [("existing file: the cache key covers (resolved path, st_mtime_ns, st_size, arguments)",
                      z3.BoolVal(bool(ok)))]
         return [("missing file: the function is called directly, nothing is cached",
